@@ -8,7 +8,7 @@
 (*          log records in order, the class that left handle(), environment operations,     *)
 (*          the log length when the injected failure was raised (mark), descriptors still   *)
 (*          open afterwards (nfds), the artefacts left in the tree (arts), a digest of the  *)
-(*          reply modulo timestamps, and its role: single | alone | hist | final            *)
+(*          reply modulo timestamps, and its role: single | alone | hist | final | socket   *)
 (*   reset  the tree is put back to its pristine state                                      *)
 (* For each conn event the specification first RUNS the design machine on rq from the        *)
 (* current tree (Server!Step until closed: the same actions MC_C03 / MC_C20 check), then     *)
@@ -47,11 +47,13 @@ ModelArts == {p \in DOMAIN fs : p \notin DOMAIN Tree0[HL]}
 ObsArts(e) == {e.arts[i] : i \in 1..Len(e.arts)}
 DriftWhat(e) ==
     LET m == ModelView v == ObsView(e) IN
-    IF m.proto # v.proto THEN "protocol"
+    IF e.role = "socket" THEN "none"          \* real-socket runs: the kernel picks the failing write, not the model
+    ELSE IF m.proto # v.proto THEN "protocol"
     ELSE IF m.esc # v.esc THEN "escaped class"
     ELSE IF Classes(m.log) # Classes(v.log) THEN "log classes"
-    ELSE IF (Len(m.frames) = 0) # (Len(v.frames) = 0) THEN "reply presence"
-    ELSE IF G!IsErrorReply(m.proto, m.frames) # G!IsErrorReply(v.proto, v.frames) THEN "reply kind"
+    \* (what a client saw of a reply that was cut off by an injected failure is not compared)
+    ELSE IF e.rq.fk = 0 /\ (Len(m.frames) = 0) # (Len(v.frames) = 0) THEN "reply presence"
+    ELSE IF e.rq.fk = 0 /\ G!IsErrorReply(m.proto, m.frames) # G!IsErrorReply(v.proto, v.frames) THEN "reply kind"
     ELSE IF m.mark # v.mark THEN "log position of the failure"
     ELSE IF e.role # "single" /\ ModelArts # ObsArts(e) THEN "artefacts"
     ELSE "none"
